@@ -3,12 +3,11 @@
 From Coq Require Import List Arith Lia Bool Ascii String NArith ZArith ZifyN ZifyNat ZifyBool.
 Import ListNotations.
 From AV Require Import lib.Str lib.Path model.CFS_file model.CFS_tree model.CFS_inst model.CFS_bg proofs.CFS_escape_proofs.
+From AV Require Export model.CFS_tload.
 Local Open Scope string_scope.
 Ltac Zify.zify_post_hook ::= Z.div_mod_to_equations.
 
 (* ---------- strings.Split with a one-character separator ---------- *)
-Fixpoint has_char (c : ascii) (s : string) : bool :=
-  match s with EmptyString => false | String x r => Ascii.eqb x c || has_char c r end.
 
 Lemma split_acc_nochar c s : forall k, has_char c s = false -> split_acc c s k = [k s].
 Proof.
